@@ -235,4 +235,18 @@ def run(repo: Repo, chk: Check, thorough: bool = False) -> None:
     if n_pe < 2:
         raise AnalysisError(f'R16.5: {n_pe} ParseError constructions fed from a docutils line found (2 confirmed: _EpydocReader.report, _SplitFieldsTranslator.visit_field)')
     chk.require('R16.5', 2)
+    # line numbers inside a docstring count LINE FEEDs (that is what docstring_lineno + offset means in the source file): the epytext tokenizer
+    # must split at '\n' only - str.splitlines() also breaks at U+2028, U+0085, FS, VT ..., which are not line ends of the source
+    tk = repo.func('pydoctor.epydoc.markup.epytext._tokenize')
+    tparam = tk.params()[0].arg
+    sp16 = [c for c in calls_in(tk) if call_name(c) in ('split', 'splitlines') and isinstance(c.func, ast.Attribute) and norm(c.func.value) == tparam]
+    if not sp16:
+        raise AnalysisError('R16.5: epytext._tokenize no longer splits its text into lines')
+    for c in sp16:
+        oks = call_name(c) == 'split' and len(c.args) == 1 and isinstance(c.args[0], ast.Constant) and c.args[0].value == '\n'
+        chk.ob('R16.5', 'epydoc.markup.epytext._tokenize :: lines are what a LINE FEED separates', oks,
+               norm(c) if oks else
+               f'`{norm(c)}`: every U+2028 / U+0085 / form-feed-like character inside an epytext docstring shifts all later warnings of that docstring one line down',
+               repo.loc(tk.mod, c))
+    chk.require('R16.5', 3)
 
